@@ -60,6 +60,15 @@ type vEnv struct {
 
 func (e *vEnv) ev(kind, node int) { e.log = append(e.log, vEvent{kind, node}) }
 
+// observe: the ghost event log as one number (compared between the engine and the native build)
+func (e *vEnv) observe(err error) {
+	h := 0
+	for i, ev := range e.log {
+		h += (i + 1) * (ev.kind*8 + ev.node + 1)
+	}
+	nd.Observe("events", len(e.log), h, err == nil)
+}
+
 func (e *vEnv) fault(kind, node int) bool {
 	if e.faultsLeft == 0 {
 		return false
@@ -442,6 +451,7 @@ func VerifC01() {
 	n := nd.Param("N", 2)
 	e := newMC(n, nd.Param("POINTS", 5), false, nd.Param("REQ", 2), 0)
 	err := e.f.Refresh()
+	e.observe(err)
 	if err != nil {
 		nd.Cover("start failed")
 		nd.Assert(e.badPoint, "C02: start-up fails only when a required point can only be satisfied by its own holder")
@@ -468,6 +478,7 @@ func VerifC02() {
 	n := nd.Param("N", 2)
 	e := newMC(n, nd.Param("POINTS", 5), false, 1, 0)
 	err := e.f.Refresh()
+	e.observe(err)
 	if err != nil {
 		nd.Cover("start failed")
 		nd.Assert(e.badPoint, "C02: start-up fails only when a required point can only be satisfied by its own holder")
@@ -562,6 +573,7 @@ func VerifC05() {
 	e := newMC(n, nd.Param("POINTS", 5), nd.Param("LAZY", 1) == 1, 2, 0)
 	e.populatedBeforeChecks = true
 	err := e.f.Refresh()
+	e.observe(err)
 	// ordering constraints hold on whatever events exist
 	for i := 0; i < n; i++ {
 		c, b, a, in, af := e.at(evConfig, i), e.at(evBefore, i), e.at(evAPS, i), e.at(evInit, i), e.at(evAfter, i)
@@ -625,6 +637,7 @@ func VerifC09MC() {
 	n := nd.Param("N", 2)
 	e := newMC(n, nd.Param("POINTS", 1), false, nd.Param("REQ", 2), nd.Param("FAULTS", 1))
 	err := e.f.Refresh()
+	e.observe(err)
 	if len(e.faults) > 0 {
 		nd.Cover("fault injected")
 		nd.Assert(err != nil, "C09: a failing callback makes start-up return an error")
